@@ -260,4 +260,15 @@ LEMMAS = [
         ensures={"shift": "(v * 4 + j) % (4 * m) == (v % m) * 4 + j", "quotient": "v // m == q"},
         proof="mod_small(q, m, v - q * m)\nmod_small(q, 4 * m, (v - q * m) * 4 + j)",
     ),
+    dict(
+        name="fm_ext",              # the breadth-first step depends only on the entries of the list (two lists that agree give the same successors)
+        params={"acc": "arr2", "b1": "arr", "s1": "int", "b2": "arr", "s2": "int", "n": "int"},
+        requires={"n": "n >= 0", "agree": "forall(lambda q: b1[s1 + q] == b2[s2 + q], 0, n)"},
+        ensures={"same-count": "rfmn(acc, b1, s1, n) == rfmn(acc, b2, s2, n)",
+                 "same-entries": "forall(lambda p: rfm(acc, b1, s1, n, p) == rfm(acc, b2, s2, n, p), 0, rfmn(acc, b1, s1, n))"},
+        proof="h = 0\nwhile h < n:\n    h += 1",
+        loops={1: dict(invariant={"range": "0 <= h <= n", "same-count": "rfmn(acc, b1, s1, h) == rfmn(acc, b2, s2, h)",
+                                  "same-entries": "forall(lambda p: rfm(acc, b1, s1, h, p) == rfm(acc, b2, s2, h, p), 0, rfmn(acc, b1, s1, h))"},
+                       variant="n - h")},
+    ),
 ]
